@@ -40,9 +40,11 @@ against and {any_hit} by at least one check.
 Changes that no check catches are floating-point-only (identical over the reals: C14-B, C08-E) or
 need the caller to modify in place a list the library handed out (C02-N, C04-N: not stated by any
 property, and the pinned tree hands out its own label list through Term.levels) - outside every
-claim of this family. Six waves were written: (A-H) free choice, (I/J) cooperating sites,
+claim of this family. Seven waves were written: (A-H) free choice, (I/J) cooperating sites,
 multi-step sequences and unusual inputs, (K/L) size and shape thresholds, (M/N) refusals, metadata,
-aliasing and determinism, (O/P) interaction of two or three features. Checks were strengthened
+aliasing and determinism, (O/P) interaction of two or three features, (Q) data-type and value boundaries
+(bool / integer / Categorical / string dtypes, one- and two-level factors, unusual indexes,
+level names that sort differently as text and as numbers). Checks were strengthened
 after misses: C02 (keyword-value aliasing of calls), C04 (declared level orders through C()),
 C06 (unordered Categorical flavour; operator spellings sharing components), C09 (duplicate index
 labels), C11 (keyword position, None bindings, Python-builtin names), C12 (bool arithmetic,
